@@ -27,6 +27,7 @@ def run(rep):
     rep.guard(s11, rep, w, 'C06')
     import cache
     rep.guard(cache.cc1, rep, w, 'C06')     # a remembered global / attribute look-up must not outlive a write to the table it came from
+    rep.guard(cache.cc2, rep, w, 'C06')
     import c08
     rep.guard(c08.x9, rep, w)    # a global name is looked up in the module of the running frame: the cached module follows every frame change
     import c04_narrow
